@@ -119,6 +119,7 @@ func writeDXF(wg *sync.WaitGroup, path string) (chan<- []*sdf.Line2, error) {
 
 	wg.Add(1)
 	go func() {
+		simYield("render.writeDXF.start", 0)
 		defer wg.Done()
 		for ls := range c {
 			simYield("render.writeDXF", uint64(len(ls)))
